@@ -227,3 +227,422 @@ def cav_dp(ctx):
         t1s = np.arange(total_seconds)
         ctx.oracle('CAVdp: series is the interpolation of the per-second totals',
                    bool(np.allclose(s, np.interp(asig.time, t1s, per_sec), rtol=1e-12, atol=0)), inputs)
+
+
+# ---- extras2 (harness extension hx_a): large instances, extreme magnitudes and time steps, wrappers, containers / dtypes, histories ------
+#
+# Not demanded (see NOTES.md):
+#   * records of a NARROW integer dtype whose squares / neighbour sums overflow the dtype: on the pinned tree calc_arias_intensity wraps for
+#     every integer dtype once a**2 leaves the dtype's range (int8 .. int64, uint8, uint16), and calc_cav / calc_isv / calc_unit_kinetic_energy
+#     wrap for 8-bit records (a[i] + a[i+1] is formed in the dtype) -- wrong VALUES, reported as suspected defects, no oracle; the
+#     combinations that are right on the pinned tree are demanded below;
+#   * float32 records are computed in single precision (Arias, CAVdp differ from the float64 result by ~1e-7): compared at 1e-5;
+#   * calc_sir raises TypeError on every input (unpacks the scalar returned by the deprecated calc_significant_duration);
+#   * standardised CAV is not homogeneous (absolute gate 0.025 g): no scaling oracle.
+
+X2_FNS = ['calc_arias_intensity', 'calc_cav', 'calc_isv', 'calc_integral_of_abs_velocity', 'calc_integral_of_abs_acceleration', 'calc_unit_kinetic_energy']
+X2_DEG_A = {'calc_arias_intensity': 2, 'calc_cav': 1, 'calc_isv': 2, 'calc_integral_of_abs_velocity': 1, 'calc_integral_of_abs_acceleration': 1,
+            'calc_unit_kinetic_energy': 2}      # degree of homogeneity in the record
+X2_DEG_DT = {'calc_arias_intensity': 1, 'calc_cav': 1, 'calc_isv': 3, 'calc_integral_of_abs_velocity': 2, 'calc_integral_of_abs_acceleration': 1,
+             'calc_unit_kinetic_energy': 2}     # ... in the time step (v ~ a dt)
+X2_ACC_BASED = ('calc_arias_intensity', 'calc_cav', 'calc_integral_of_abs_acceleration')
+# narrow-integer records: (dtype label prefix) -> measures whose value is right on the pinned tree (see the note above)
+X2_NARROW_OK = {'int32x1e5': X2_FNS[1:], 'int16x200': X2_FNS[1:], 'int64x3e9': X2_FNS[1:], 'uint16x200': X2_FNS[1:],
+                'int8x40': ['calc_integral_of_abs_acceleration'], 'uint8x40': ['calc_integral_of_abs_acceleration']}
+
+
+def _x2_all(im, asig, names=X2_FNS):
+    return {f: call_impl(getattr(im, f), asig) for f in names}
+
+
+def _x2_envelope(rng, n, amp=1.0):
+    return amp * gen.noise_record(rng, n) * np.exp(-((np.arange(n) - n / 3) / (n / 5)) ** 2)
+
+
+def _x2_aged_cheap(ctx, cls, values, dt):
+    rng = ctx.rng
+    kind = rng.choice(['fresh', 'reset-other-length/read-before', 'reset-other-length'])
+    ctx.hist('object-history(long)/' + kind)
+    if kind == 'fresh':
+        return cls(np.array(values, dtype=float), dt)
+    s = cls(np.array([rng.uniform(-1, 1) for _ in range(rng.randint(3, 9))]), dt)
+    if kind.endswith('read-before'):
+        for name in ('npts', 'time', 'velocity', 'displacement', 'pga', 'pgv'):
+            getattr(s, name)
+    s.reset_values(np.array(values, dtype=float))
+    return s
+
+
+def _x2_cavdp_clauses(ctx, a, dt, pps, s, tag, inputs):
+    """the standardised-CAV clauses evaluated with NumPy, one window per second (same reading as cav_dp() above)"""
+    n = len(a)
+    g = 9.81
+    s = np.asarray(s)
+    total_seconds = int((n - 1) * dt + 1e-9)
+    absg = np.abs(a) / g
+    cav_final = float(np.sum((np.abs(a)[1:] + np.abs(a)[:-1]) / 2) * dt)
+    ctx.oracle(f'CAVdp{tag}: length == len(record)', len(s) == n, inputs)
+    if len(s) != n:
+        return
+    ctx.oracle(f'CAVdp{tag}: non-decreasing', bool(np.all(np.diff(s) >= 0)), inputs)
+    ctx.oracle(f'CAVdp{tag}: 0 <= CAVdp <= CAV/9.81', bool(s.min() >= 0 and s[-1] <= cav_final / g * (1 + 1e-9) + 1e-300), inputs,
+               detail={'final': float(s[-1]), 'cav_over_g': cav_final / g})
+    per_sec = [float(s[k * pps]) for k in range(total_seconds)]
+    ok_inc, bad, any_qual = True, None, False
+    for k in range(total_seconds):
+        w = absg[k * pps:(k + 1) * pps + 1]
+        full = float(np.sum((w[1:] + w[:-1]) / 2) * dt)
+        lastp = float((w[-1] + w[-2]) / 2 * dt) if len(w) >= 2 else 0.0
+        qual = (w.max() - 0.025) >= 0
+        any_qual = any_qual or qual
+        inc = per_sec[k] - (per_sec[k - 1] if k else 0.0)
+        lo, hi = ((full - lastp), full) if qual else (0.0, 0.0)
+        tol = 1e-9 * max(full, 1e-30)
+        if not (lo - tol <= inc <= hi + tol):
+            ok_inc = False
+            bad = bad or {'second': k, 'increment': inc, 'window_integral': full, 'last_panel': lastp, 'qualifies': bool(qual)}
+    ctx.oracle(f'CAVdp{tag}: per-second increments == windowed |a| integrals over qualifying windows (to within one panel per window)', ok_inc, inputs, detail=bad)
+    if not any_qual:
+        ctx.oracle(f'CAVdp{tag}: zero when no one-second window reaches 0.025 g', bool(np.all(s == 0)), inputs)
+    ctx.oracle(f'CAVdp{tag}: series is the interpolation of the per-second totals',
+               bool(np.allclose(s, np.interp(dt * np.arange(n), np.arange(total_seconds), per_sec), rtol=1e-12, atol=0)), inputs)
+
+
+def x2_large(ctx):
+    """LARGE instances (6 000 - 60 000 samples): the defining integrals with NumPy in O(n) (whole series, not only the final value), the
+    prefix decomposition (a cumulative measure of the first m samples == the first m entries of the measure of the whole record, bit for
+    bit), zero padding by thousands of samples; standardised CAV over hundreds of one-second windows"""
+    import eqsig
+    from eqsig import im
+    rng = ctx.rng
+    quick = ctx.tier == 'quick'
+    for n in ([6000, 25000, 60000] if quick else [6000, 25000, 60000, 5000, 5001, 8192, 16384, 40000, 100000]):
+        dt = rng.choice([0.01, 0.005, 0.02, 0.0078125])
+        a = _x2_envelope(rng, n, rng.choice([1.0, 1e-3, 50.0]))
+        a[-1] = 0.0
+        inputs = {'a': f'gaussian noise x gaussian envelope, n={n}, last sample 0 (seed-derived)', 'dt': dt, 'head': a[:4]}
+        ctx.hist(f'large/n={n}')
+        ctx.count_case(('x2-large', n, dt, a[:16].tobytes()), True, sample={'fn': 'cumulative measures (large instance)', 'n': n, 'dt': dt})
+        asig = _x2_aged_cheap(ctx, eqsig.AccSignal, a, dt)
+        snap = a.copy()
+        out = _x2_all(im, asig)
+        v = np.asarray(asig.velocity, dtype=float)
+        ke = 0.5 * v * np.abs(v)
+        spec = {
+            'calc_arias_intensity': K_ARIAS * np.concatenate([[0.0], np.cumsum((a[1:] ** 2 + a[:-1] ** 2) / 2.0)]) * dt,
+            'calc_cav': np.concatenate([[0.0], np.cumsum((np.abs(a[1:]) + np.abs(a[:-1])) / 2.0)]) * dt,
+            'calc_isv': np.concatenate([[0.0], np.cumsum((v[1:] ** 2 + v[:-1] ** 2) / 2.0)]) * dt,
+            'calc_integral_of_abs_velocity': np.cumsum(np.abs(v)) * dt,
+            'calc_integral_of_abs_acceleration': np.cumsum(np.abs(a)) * dt,
+            'calc_unit_kinetic_energy': np.cumsum(np.abs(np.diff(np.concatenate([[0.0], ke])))),
+        }
+        m = rng.choice([n // 2, n - 1, 4097, 5000])
+        pre = _x2_all(im, eqsig.AccSignal(a[:m], dt))
+        npad = rng.choice([1000, 5000, 4096])
+        pad = _x2_all(im, eqsig.AccSignal(np.concatenate([a, np.zeros(npad)]), dt), X2_ACC_BASED)
+        for f in X2_FNS:
+            if out[f][0] != 'ok':
+                ctx.oracle(f'{f} returns a series', False, inputs, detail=out[f])
+                continue
+            s = np.asarray(out[f][1])
+            ctx.oracle(f'{f}: length == len(record) [large instance]', s.shape == (n,), inputs)
+            if s.shape != (n,):
+                continue
+            ctx.oracle(f'{f}: non-decreasing [large instance]', bool(np.all(np.diff(s) >= 0)), inputs, detail={'first_decrease': int(np.argmax(np.diff(s) < 0))})
+            want = spec[f]
+            fin = math.fsum((want[1:] - want[:-1]).tolist()) + float(want[0])
+            ctx.oracle(f'{f}: final value == defining integral [large instance]', abs(float(s[-1]) - fin) <= 1e-10 * max(abs(fin), 1e-300), inputs,
+                       detail={'got': float(s[-1]), 'want': fin})
+            dev = float(np.max(np.abs(s - want)))
+            ctx.oracle(f'{f}: every entry of the series == the defining integral up to that sample [large instance]', dev <= 1e-10 * max(abs(fin), 1e-300), inputs,
+                       detail={'max_dev': dev, 'final': fin, 'at': int(np.argmax(np.abs(s - want)))})
+            ok = pre[f][0] == 'ok' and np.asarray(pre[f][1]).shape == (m,) and bool(np.array_equal(np.asarray(pre[f][1]), s[:m]))
+            ctx.oracle(f'{f}: the measure of the first m samples == the first m entries of the measure of the whole record (==) [large instance]', ok, {**inputs, 'm': m},
+                       detail=None if ok or pre[f][0] != 'ok' else {'first_diff': int(np.argmax(np.asarray(pre[f][1]) != s[:m])) if np.asarray(pre[f][1]).shape == (m,) else 'shape'})
+            if f in X2_ACC_BASED:
+                s2 = np.asarray(pad[f][1]) if pad[f][0] == 'ok' else np.zeros(0)
+                ctx.oracle(f'{f}: appending zeros to a record ending at zero changes nothing', s2.shape == (n + npad,) and bool(np.array_equal(s2[:n], s) and np.all(s2[n:] == s[-1])),
+                           {**inputs, 'm': npad})
+        ctx.oracle('input array unchanged', bool(np.array_equal(a, snap) and np.array_equal(np.asarray(asig.values), snap)), inputs)
+    # standardised CAV over many one-second windows
+    for dt, pps, secs in ([(0.01, 100, 130), (0.005, 200, 300)] if quick else [(0.01, 100, 130), (0.005, 200, 300), (0.02, 50, 1200), (0.0125, 80, 77), (0.25, 4, 6000)]):
+        n = secs * pps + 1 + rng.randrange(pps)
+        a = _x2_envelope(rng, n, rng.choice([0.3, 1.0]))
+        k0 = rng.randrange(1, secs - 1) * pps
+        a[k0] = 0.6                               # a large sample exactly on a window boundary
+        a[int(0.8 * n):] *= 0.01                  # quiet tail: windows below the gate
+        inputs = {'a': f'gaussian noise x gaussian envelope, n={n}, a[{k0}] = 0.6, last fifth x 0.01 (seed-derived)', 'dt': dt}
+        ctx.hist('large/cavdp')
+        ctx.count_case(('x2-large-cavdp', n, dt, a[:16].tobytes()), True)
+        asig = _x2_aged_cheap(ctx, eqsig.AccSignal, a, dt)
+        res = call_impl(im.calc_cav_dp, asig)
+        if res[0] != 'ok':
+            ctx.oracle('calc_cav_dp returns a series on its domain', False, inputs, detail=res)
+            continue
+        _x2_cavdp_clauses(ctx, a, dt, pps, res[1], ' [large instance]', inputs)
+
+
+def x2_extreme(ctx):
+    """exact covariance under powers of two: |alpha|-type measures with 2^+-600 / 2^+-350, energy-type measures with 2^+-400 / 2^+-200; and
+    under a rescaling of the TIME STEP (the property quantifies over all dt): measure(a, 2^j dt) == 2^(j * degree) measure(a, dt)"""
+    import eqsig
+    from eqsig import im
+    rng = ctx.rng
+    for it in range(5 if ctx.tier == 'quick' else 50):
+        n = gen.log_int(rng, 3, 150)
+        dt = gen.any_dt(rng)
+        a = gen.noise_record(rng, n) if it % 2 else gen.dyadic_record(rng, n)
+        if not np.any(a):
+            a[n // 2] = 1.0
+        base = _x2_all(im, eqsig.AccSignal(a, dt))
+        ctx.count_case(('x2-extreme', a.tobytes(), dt), gen.nontrivial_record(a))
+        for deg, ks in ((1, gen.EXTREME_POW2), (2, (-400, 400, -200, 200))):
+            for k in ks:
+                sc = 2.0 ** k
+                arr = a * sc * rng.choice([1.0, -1.0])
+                o = ctx.aged(eqsig.AccSignal, arr, dt)
+                ctx.hist(f'extreme-scale(degree {deg})/2^{k}')
+                for f in X2_FNS:
+                    if X2_DEG_A[f] != deg or base[f][0] != 'ok':
+                        continue
+                    r = call_impl(getattr(im, f), o)
+                    ok = r[0] == 'ok' and gen.scaled_exactly(np.asarray(r[1], dtype=float), np.asarray(base[f][1], dtype=float), sc ** deg)
+                    ctx.oracle(f'{f}: scales as |alpha|^{deg} EXACTLY for alpha = +-2^k, also for records around ' + ('1e-180 / 1e+180' if deg == 1 else '1e-120 / 1e+120'), ok,
+                               {'a': a, 'dt': dt, 'alpha': ('-' if arr[np.nonzero(a)[0][0]] * a[np.nonzero(a)[0][0]] < 0 else '') + f'2**{k}'},
+                               detail=None if ok else {'got_last': float(np.asarray(r[1])[-1]) if r[0] == 'ok' else r, 'want_last': float(np.asarray(base[f][1])[-1]) * sc ** deg})
+        for j in (-250, 250, -60, 60):
+            o = ctx.aged(eqsig.AccSignal, a, dt * 2.0 ** j)
+            ctx.hist(f'extreme-dt/2^{j}')
+            for f in X2_FNS:
+                if base[f][0] != 'ok':
+                    continue
+                r = call_impl(getattr(im, f), o)
+                ok = r[0] == 'ok' and gen.scaled_exactly(np.asarray(r[1], dtype=float), np.asarray(base[f][1], dtype=float), 2.0 ** (j * X2_DEG_DT[f]))
+                ctx.oracle(f'{f}: measure(a, 2^j dt) == 2^({X2_DEG_DT[f]} j) measure(a, dt) exactly, also for extreme time steps', ok, {'a': a, 'dt': dt, 'dt_scale': f'2**{j}'},
+                           detail=None if ok else {'got_last': float(np.asarray(r[1])[-1]) if r[0] == 'ok' else r})
+
+
+def x2_wrappers(ctx):
+    """(a) im.cumulative_response_spectra(asig, 'arias_intensity') is the Arias series of each oscillator's total acceleration: row j ==
+    calc_arias_intensity of a signal holding that response (==), the row of a leading T = 0 == calc_arias_intensity(asig) (the response is
+    the sign-flipped record), every row has the record's length and is non-decreasing; defaults periods = response_times, xi = 0.05.
+    (b) the deprecated AccSignal.generate_cumulative_stats stores calc_arias_intensity / calc_cav and their last entries."""
+    import eqsig
+    from eqsig import im, sdof
+    rng = ctx.rng
+    for it in range(12 if ctx.tier == 'quick' else 120):
+        n = gen.log_int(rng, 2, 200)
+        dt = gen.any_dt(rng)
+        kind, a = gen.any_record(rng, n, dt)
+        periods = [dt * rng.choice([3.0, 8.0, 20.0, 75.0, 300.0]) for _ in range(rng.randint(1, 3))]
+        lead0 = rng.random() < 0.5
+        if lead0:
+            periods = [0.0] + periods
+        xi = rng.choice([0.05, 0.0, 0.2])
+        inputs = {'a': a, 'dt': dt, 'periods': periods, 'xi': xi}
+        ctx.hist('wrappers/cumulative_response_spectra')
+        ctx.count_case(('x2-crs', a.tobytes(), dt, tuple(periods), xi), gen.nontrivial_record(a))
+        asig = ctx.aged(eqsig.AccSignal, a, dt, response_times=np.array(periods))
+        pc = rng.choice(['list', 'tuple', 'array'])
+        res = call_impl(im.cumulative_response_spectra, asig, 'arias_intensity', periods={'list': list, 'tuple': tuple, 'array': np.array}[pc](periods), xi=xi)
+        ra = call_impl(sdof.response_series, a, dt, np.array(periods), xi)
+        if res[0] != 'ok' or ra[0] != 'ok':
+            ctx.oracle('cumulative_response_spectra returns on the domain of the response series', res[0] == ra[0], inputs, detail=(res[0], ra[0]))
+            continue
+        rs = np.asarray(res[1])
+        acc_rows = ra[1][2]
+        ok_shape = rs.shape == (len(periods), n)
+        ctx.oracle('cumulative_response_spectra: one series per period, each of the record\'s length', ok_shape, inputs, detail={'shape': rs.shape})
+        if not ok_shape:
+            continue
+        if np.all(np.isfinite(acc_rows)):
+            ctx.oracle('cumulative_response_spectra: every row is non-decreasing', bool(np.all(np.diff(rs, axis=1) >= 0)), inputs)
+            rows_ok = all(np.array_equal(rs[j], im.calc_arias_intensity(eqsig.AccSignal(acc_rows[j], dt))) for j in range(len(periods)))
+            ctx.oracle('cumulative_response_spectra row j == calc_arias_intensity of the total acceleration response of period j (==)', rows_ok, inputs)
+            if lead0:
+                ctx.oracle('cumulative_response_spectra, leading T = 0: the row is the Arias intensity series of the record itself (==)',
+                           bool(np.array_equal(rs[0], im.calc_arias_intensity(eqsig.AccSignal(a, dt)))), inputs)
+        d0 = call_impl(im.cumulative_response_spectra, asig, 'arias_intensity')
+        d1 = call_impl(im.cumulative_response_spectra, asig, 'arias_intensity', periods=np.array(periods), xi=0.05)
+        ctx.oracle('cumulative_response_spectra: the defaults are periods = response_times of the object and xi = 0.05 (==)',
+                   d0[0] == d1[0] and (d0[0] != 'ok' or np.array_equal(np.asarray(d0[1]), np.asarray(d1[1]))), inputs, detail=(d0[0], d1[0]))
+        # (b) deprecated statistics method
+        o = ctx.aged(eqsig.AccSignal, a, dt)
+        g = call_impl(lambda: (o.generate_cumulative_stats(), (o.arias_intensity_series, o.arias_intensity, o.cav_series, o.cav))[1])
+        w_ar, w_cav = call_impl(im.calc_arias_intensity, o), call_impl(im.calc_cav, o)
+        ok = g[0] == w_ar[0] == w_cav[0] and (g[0] != 'ok' or (np.array_equal(g[1][0], w_ar[1]) and float(g[1][1]) == float(w_ar[1][-1]) and
+                                                                np.array_equal(g[1][2], w_cav[1]) and float(g[1][3]) == float(w_cav[1][-1])))
+        ctx.hist('wrappers/generate_cumulative_stats')
+        ctx.oracle('deprecated AccSignal.generate_cumulative_stats stores calc_arias_intensity / calc_cav and their final values (==)', ok, {'a': a, 'dt': dt}, detail=g[0])
+
+
+def x2_containers(ctx):
+    """the measures of a record given as list / tuple / int64 / int32 / strided ndarray (exactly) or float32 (1e-5: single precision) or a
+    narrow integer dtype (where the pinned tree is right, see the note above) are those of the same numbers in float64"""
+    import eqsig
+    from eqsig import im
+    rng = ctx.rng
+    names = X2_FNS + ['calc_cav_dp']
+    for it in range(10 if ctx.tier == 'quick' else 100):
+        whole = it % 2 == 0
+        if it % 5 == 4:
+            dt, pps = rng.choice([(0.25, 4), (0.125, 8), (0.5, 2)])
+            n = pps * rng.randint(2, 6) + 1
+        else:
+            dt = gen.dyadic_dt(rng)
+            n = gen.log_int(rng, 2, 80)
+        a = gen.int_record(rng, n) if whole else gen.dyadic_record(rng, n)
+        base = _x2_all(im, eqsig.AccSignal(a, dt), names)
+        ctx.count_case(('x2-cont', a.tobytes(), dt), gen.nontrivial_record(a))
+        variants = [(lab, c, a, names) for lab, c in gen.container_variants(a)]
+        if whole:
+            variants += [(lab, c, fl, X2_NARROW_OK[lab]) for lab, c, fl in gen.narrow_int_variants(a)]
+        for lab, c, fl, fns in variants:
+            ctx.hist('record container=' + lab)
+            oc = call_impl(eqsig.AccSignal, c, dt)
+            if oc[0] != 'ok':
+                ctx.oracle('an AccSignal can be built from a list / tuple / integer / float32 / strided record', False, {'a': fl, 'dt': dt, 'container': lab}, detail=oc)
+                continue
+            ref = base if fl is a else _x2_all(im, eqsig.AccSignal(fl, dt), fns)
+            for f in fns:
+                r = call_impl(getattr(im, f), oc[1])
+                if ref[f][0] != 'ok':
+                    ok = r[0] == ref[f][0] and r[1] == ref[f][1]
+                elif r[0] != 'ok':
+                    ok = False
+                elif lab == 'float32':
+                    w = np.asarray(ref[f][1], dtype=float)
+                    ok = np.asarray(r[1]).shape == w.shape and bool(np.all(np.abs(np.asarray(r[1], dtype=float) - w) <= 1e-5 * max(float(np.max(np.abs(w))), 1e-300)))
+                else:
+                    ok = bool(np.array_equal(np.asarray(r[1], dtype=float), np.asarray(ref[f][1], dtype=float)))
+                ctx.oracle(f'{f}: a record given as list / tuple / integer / strided ndarray (==) or float32 (1e-5) gives the measure of the same numbers in float64', ok,
+                           {'a': fl, 'dt': dt, 'container': lab}, detail=None if ok else {'got_last': float(np.asarray(r[1])[-1]) if r[0] == 'ok' else r,
+                                                                                         'want_last': float(np.asarray(ref[f][1])[-1]) if ref[f][0] == 'ok' else ref[f]})
+
+
+def x2_histories(ctx):
+    """read - mutate - read on ONE object: the measures are those of the CURRENT record whatever was read or cached before; series read
+    earlier (measures, velocity) are not overwritten by later calls; a measure call leaves values / velocity / displacement unchanged"""
+    import eqsig
+    from eqsig import im
+    rng = ctx.rng
+    for it in range(25 if ctx.tier == 'quick' else 250):
+        n = rng.randint(4, 90)
+        if it % 4 == 3:
+            dt, pps = rng.choice([(0.25, 4), (0.125, 8), (0.5, 2)])
+            n = pps * rng.randint(2, 6) + 1
+        else:
+            dt = gen.dyadic_dt(rng) if it % 2 else gen.any_dt(rng)
+        cur = gen.dyadic_record(rng, n)
+        asig = eqsig.AccSignal(cur.copy(), dt)
+        names = X2_FNS + (['calc_cav_dp'] if it % 4 == 3 else [])
+        held, hist = [], []
+        for step in range(rng.randint(2, 5)):
+            op = rng.choice(['measures', 'one-measure', 'velocity', 'stats', 'scale(reset same length)', 'reset other length', 'add_constant', 'inplace-edit+reset_values', 'add_series'])
+            if op == 'measures':
+                pass
+            elif op == 'one-measure':
+                f = rng.choice(names)
+                r = call_impl(getattr(im, f), asig)
+                if r[0] == 'ok':
+                    held.append((r[1], np.array(r[1], copy=True)))
+            elif op == 'velocity':
+                for x in (asig.velocity, asig.displacement):
+                    held.append((x, np.array(x, copy=True)))
+            elif op == 'stats':
+                asig.generate_cumulative_stats()
+            elif op == 'scale(reset same length)':
+                cur = cur * rng.choice([2.0, -0.5, -1.0])
+                asig.reset_values(cur.copy())
+            elif op == 'reset other length':
+                if 'calc_cav_dp' in names:
+                    continue
+                cur = gen.dyadic_record(rng, rng.randint(4, 90))
+                asig.reset_values(cur.copy())
+            elif op == 'add_constant':
+                c = rng.choice([0.5, -1.0, 2.0])
+                asig.add_constant(c)
+                cur = cur + c
+            elif op == 'add_series':
+                d = gen.dyadic_record(rng, len(cur))
+                asig.add_series(d)
+                cur = cur + d
+            else:
+                v_ = asig.values
+                v_ *= 0.5
+                asig.reset_values(v_)
+                cur = cur * 0.5
+            hist.append(op)
+            inputs = {'dt': dt, 'history': list(hist), 'current record': cur}
+            vsnap = (np.array(asig.values, copy=True), np.array(asig.velocity, copy=True), np.array(asig.displacement, copy=True))
+            got = _x2_all(im, asig, names)
+            fresh = _x2_all(im, eqsig.AccSignal(cur.copy(), dt), names)
+            ok = all(got[f][0] == fresh[f][0] and (got[f][0] != 'ok' or np.array_equal(np.asarray(got[f][1]), np.asarray(fresh[f][1]))) for f in names)
+            ctx.hist('measure-history/' + op)
+            ctx.oracle('C09 object-level access: after any history the measures of an object are those of a fresh object holding its CURRENT record (==)', ok, inputs,
+                       detail=[f for f in names if not (got[f][0] == fresh[f][0] and (got[f][0] != 'ok' or np.array_equal(np.asarray(got[f][1]), np.asarray(fresh[f][1]))))],
+                       facts={'history': list(hist)})
+            ctx.oracle('C09 a measure call leaves the values, velocity and displacement of the object unchanged',
+                       bool(np.array_equal(asig.values, vsnap[0]) and np.array_equal(asig.velocity, vsnap[1]) and np.array_equal(asig.displacement, vsnap[2])), inputs)
+            ctx.oracle('C09 series read from an object earlier (measures, velocity, displacement) are not overwritten by later calls or record changes',
+                       all(np.array_equal(x, cp) for x, cp in held), inputs, facts={'history': list(hist)})
+            for f in names:
+                if got[f][0] == 'ok':
+                    held.append((got[f][1], np.array(got[f][1], copy=True)))
+        ctx.count_case(('x2-hist', cur.tobytes(), tuple(hist)), True, sample={'fn': 'measure history', 'history': hist} if it < 1 else None)
+
+
+def extras2(ctx):
+    x2_large(ctx)
+    x2_extreme(ctx)
+    x2_wrappers(ctx)
+    x2_containers(ctx)
+    x2_histories(ctx)
+
+
+_run_main2 = run
+
+
+def run(ctx):
+    _run_main2(ctx)
+    extras2(ctx)
+    ctx.flush()
+
+
+# ---- open finding F09-1: arithmetic in the record's own integer dtype (see _narrow_findings.py) -------------------------------------------
+
+import _narrow_findings as _NF  # noqa: E402
+
+
+def _narrow_table():
+    import eqsig
+    from eqsig import im
+    return {nm: (lambda x, dt, nm=nm: getattr(im, nm)(eqsig.AccSignal(x, dt)))
+            for nm in ('calc_arias_intensity', 'calc_cav', 'calc_isv', 'calc_integral_of_abs_velocity', 'calc_integral_of_abs_acceleration',
+                       'calc_unit_kinetic_energy')}
+
+
+try:
+    KNOWN_MATCHERS
+except NameError:
+    KNOWN_MATCHERS = {}
+KNOWN_MATCHERS['F09-1'] = _NF.matcher('F09-1')
+_known_witness_prev = globals().get('known_witness')
+
+
+def known_witness(fid):
+    if fid == 'F09-1':
+        import eqsig
+        from eqsig import im
+        a = np.array([100, -200, 300, 250, -50], dtype=np.int16)
+        return not np.allclose(im.calc_arias_intensity(eqsig.AccSignal(a, 0.5)), im.calc_arias_intensity(eqsig.AccSignal(a.astype(float), 0.5)))
+    return _known_witness_prev(fid) if _known_witness_prev else True
+
+
+_run_main_nf = run
+
+
+def run(ctx):
+    _run_main_nf(ctx)
+    _NF.narrow_oracles(ctx, 'C09', _narrow_table())
+    ctx.flush()
